@@ -51,6 +51,12 @@ CHECKS = {
             "and switch/flag variants; accepted methods are pushed through the interpreter and both generators; a 20 s alarm per case decides 'never hangs'. Exhaustive below the bound, sampled above.",
             "Ids unique within a phase; trivial statements so only dependency resolution can fail downstream; liveness only as a bound.",
             "DESIGN.md 2/C10"),
+    "C04": ("Hypothesis-generated acyclic phases run through a recording NumpyInterpreter subclass, and ExecutionController driven directly with scripted dynamic requests; oracle = history invariants over the callback log",
+            "Harness A observes evaluate_condition/exec_* callbacks of the real interpreter on hand-written phases (guards, Nops, FailSteps, random ids): no statement twice, dependencies visited first, every statement visited in a step "
+            "that is not cut short, exec callbacks exactly for true guards. Harness B drives the controller with drawn partial roots and requests returned from exec callbacks: same two invariants, everything requested is eventually "
+            "visited, and requests with their unvisited dependencies precede the rest of the plan (the newest request winning). Sampled.",
+            "Well-formed phases only (C10's domain); iteration order of dependency sets is varied through random ids under the fixed hash seed.",
+            "DESIGN.md 2/C04"),
     "C05": ("Hypothesis-generated hand-written and builder-made phases x ALL guard valuations; oracle = independent trace walker + recording generic backend walker + independent graph closure; container-order metamorphic relation",
             "create_ast_from_phase is checked on random DAGs (ids uncorrelated with edges; guards over <= 4 flags incl. stacked negations and constants; loop nests incl. triangular ones; Nops) under every valuation: executed leaves = "
             "non-Nop statements whose guard holds, once each, inside exactly their declared loops (nest order constrained only where a bound uses another counter), ordered consistently with the transitive dependency closure, accepted "
